@@ -183,8 +183,10 @@ def _stub_plots():
         pass
 
 
-def run(ctx, texts, stream_name="run", features=None, min_modelled=0.5, timeout=5.0):
-    """texts: list of str, or of (str, feature-tag list).  Returns coverage statistics."""
+def run(ctx, texts, stream_name="run", features=None, min_modelled=0.5, timeout=5.0, label=None):
+    """texts: list of str, or of (str, feature-tag list).  Returns coverage statistics.
+    `stream_name` is the driver stream (`run`); `label` names this batch in the evidence (default: the stream name)."""
+    label = label or stream_name
     R = ctx.real
     _stub_plots()
     items = [(t, ()) if isinstance(t, str) else (t[0], tuple(t[1])) for t in texts]
@@ -224,7 +226,7 @@ def run(ctx, texts, stream_name="run", features=None, min_modelled=0.5, timeout=
     def describe(info):
         return "text=%r" % (info[0],)
 
-    bad = ctx.correspond(stream_name, cases, agree=agree, describe=describe)
+    bad = ctx.correspond(label, cases, agree=agree, describe=describe)
     stats["disagreements"] = len(bad)
     stats["first_disagreements"] = [dict(text=i[0], real=(_unhex(r[3:]) if r.startswith("ok ") else r),
                                          model=(_unhex(m[3:]) if m.startswith("ok ") else m)) for (_, r, m, i) in bad[:10]]
@@ -235,7 +237,7 @@ def run(ctx, texts, stream_name="run", features=None, min_modelled=0.5, timeout=
     if stats["total"] >= 50 and stats["modelled"] < min_modelled * stats["total"]:
         ctx.broken("pipeline model covers only %d of %d generated programs (implementation descriptors changed?)"
                    % (stats["modelled"], stats["total"]), repr(stats["unmodelled_reasons"]))
-    ctx.cov.setdefault("pipeline", {})[stream_name] = {k: v for k, v in stats.items() if k != "first_disagreements"}
+    ctx.cov.setdefault("pipeline", {})[label] = {k: v for k, v in stats.items() if k != "first_disagreements"}
     return stats
 
 
